@@ -83,9 +83,7 @@ int snoopy_datasource_login (char * const resultBuf, size_t resultBufSize, __att
             strcpy(login, "(unknown)");
         } else {
             strncpy(login, loginptr, loginSizeMaxWithoutNull);   // Coverity suggests using -1 size here
-            if ((int)strlen(loginptr) > loginSizeMaxWithoutNull) {
-                login[loginSizeMaxWithoutNull] = '\0';
-            }
+            login[loginSizeMaxWithoutNull] = '\0';              // strncpy() does not terminate a name of exactly the maximum size (or longer)
         }
     }
     return snprintf(resultBuf, resultBufSize, "%s", login);
